@@ -79,6 +79,22 @@ def handleContent (s : DState) (fs : List String) : DState × String :=
     match decNat mx, decBool host, decBool loaded, decAllow allow with
     | some m, some h, some ld, some a => (s, withLines rest fun ls => showLines (streamFile grepF m h ld a ls))
     | _, _, _, _ => (s, "bad-op")
+  | "hy" :: mx :: allow :: shape :: rest =>
+    -- files are separated by the field "|"
+    let groups := (rest.foldr (fun f (acc : List (List String)) =>
+      if f = "|" then [] :: acc else match acc with
+        | [] => [[f]]
+        | g :: gs => (f :: g) :: gs) [[]])
+    match decNat mx, decAllow allow, listOpt (groups.map fun g => listOpt (g.map decStr)) with
+    | some m, some a, some files =>
+      let r : Option Results :=
+        if shape = "M" then some (.multi files)
+        else if shape = "S" then (match files with | [f] => some (.single f) | _ => none)
+        else if shape = "N" then some .none else none
+      match r with
+      | some r => (s, " / ".intercalate ((hydrateResults m a r).map showLines))
+      | none => (s, "bad-op")
+    | _, _, _ => (s, "bad-op")
   | "pc" :: host :: filt :: allow :: rest =>
     match decBool host, decBool filt, decAllow allow with
     | some h, some f, some a => (s, withLines rest fun ls => showLines (providerContent grepF h f a ls))
